@@ -7,8 +7,9 @@ The window of `HORIZON` documents starting at `window_start_doc` is an array of
 parametric in `H` (= HORIZON, a multiple of 64; `Gen.UNION_HORIZON` in the driver and the
 instantiated theorems). The bucket array is represented by the strictly increasing list
 `window` of the set bits `delta = 64 * bucket + bit` (bucket `b` = the deltas with
-`delta / 64 = b`; `TinySet` itself — common/src/bitset.rs — is a contract, not verified at bit
-level); the cursor `bucket_idx` and all bucket arithmetic are kept. Combiners: `SumCombiner`
+`delta / 64 = b`; that this list view is what the translated `TinySet` words compute —
+`insert_mut` = `insertDelta`, `pop_lowest` = `popBucket` — is proved in Proofs/DocSet/TinySetBridge.lean,
+`C13_src_window_*`); the cursor `bucket_idx` and all bucket arithmetic are kept. Combiners: `SumCombiner`
 (`sum = true`, one natural number per slot) or `DoNothingCombiner` (`score() = 1`).
 -/
 namespace TantivyModel.DocSet.BUnion
